@@ -32,6 +32,8 @@ import (
 
 	"github.com/pingcap/errors"
 	"github.com/pingcap/failpoint"
+	"github.com/golang/protobuf/proto" //nolint:staticcheck
+	"github.com/pingcap/kvproto/pkg/errorpb"
 	"github.com/pingcap/kvproto/pkg/kvrpcpb"
 	"github.com/pingcap/log"
 	tikverr "github.com/tikv/client-go/v2/error"
@@ -181,6 +183,12 @@ type env struct {
 	commitKeys  [][]byte
 	rpcMuts     map[uint64]map[string][]byte // generation -> mutations seen in Flush requests
 	deadGens    map[uint64]bool              // generations whose flush function has returned an error
+
+	// reads at the store (txn world)
+	txnTS     uint64   // start ts of the pipelined transaction (0 while the committed data is being loaded)
+	bufErrs   []string // region errors armed for the next BufferBatchGet requests: notleader | busy
+	bufReads  int      // BufferBatchGet requests seen
+	snapReads []string // plain Get / BatchGet requests at the transaction's start ts (a buffer read that lost its tier)
 
 	// commit point (txn world): what happens to the successive Commit requests for the primary (x: executed, answer
 	// lost; n: lost before execution; k: definite key error; o: executed and answered; the last entry repeats)
@@ -347,7 +355,7 @@ func setThresholds(minKeys, minSize, force int, f func()) {
 	}
 }
 
-func newEnv(mode string, minKeys, minSize, force int, splits [][]byte) *env {
+func newEnv(mode string, minKeys, minSize, force int, splits [][]byte, committed []kvPair) *env {
 	e := &env{mode: mode, remote: map[string][]byte{}, cur: map[string][]byte{}, pending: map[string][]byte{},
 		entered: make(chan struct{}, 4), release: make(chan completion, 1), rpcs: make(chan *pendingRPC, 256),
 		lockKeys: map[string]bool{}, rpcMuts: map[uint64]map[string][]byte{}, deadGens: map[uint64]bool{}}
@@ -371,6 +379,20 @@ func newEnv(mode string, minKeys, minSize, force int, splits [][]byte) *env {
 		panic(err)
 	}
 	e.store, e.cluster = store, cluster
+	// committed data the transaction's snapshot sees: one ordinary transaction per key (a primary only: committed
+	// synchronously), before the pipelined transaction takes its start ts
+	for _, c := range committed {
+		t, err := store.Begin()
+		if err != nil {
+			panic(err)
+		}
+		if err = t.Set(c.k, c.v); err != nil {
+			panic(err)
+		}
+		if err = t.Commit(context.Background()); err != nil {
+			panic(err)
+		}
+	}
 	setThresholds(minKeys, minSize, force, func() {
 		e.txn, err = store.Begin(tikv.WithPipelinedTxn(4, 2, 0))
 	})
@@ -378,7 +400,22 @@ func newEnv(mode string, minKeys, minSize, force int, splits [][]byte) *env {
 		panic(err)
 	}
 	e.p = e.txn.GetMemBuffer().(*unionstore.PipelinedMemDB)
+	e.mu.Lock()
+	e.txnTS = e.txn.StartTS()
+	e.mu.Unlock()
 	return e
+}
+
+// regionErrorFor asks the mock store what it thinks of the request's region context and keys (stale epoch after a split,
+// key outside the region, …) by sending it a plain BatchGet with the same context; only the region error is used.
+func (h *hijack) regionErrorFor(ctx context.Context, addr string, req *tikvrpc.Request, keys [][]byte, version uint64, timeout time.Duration) *errorpb.Error {
+	probe := tikvrpc.NewRequest(tikvrpc.CmdBatchGet, &kvrpcpb.BatchGetRequest{Keys: keys, Version: version}, *proto.Clone(&req.Context).(*kvrpcpb.Context))
+	resp, err := h.Client.SendRequest(ctx, addr, probe, timeout)
+	if err != nil || resp == nil {
+		return nil
+	}
+	re, _ := resp.GetRegionError()
+	return re
 }
 
 // ---------------------------------------------------------------------------------------------- RPC hijack (txn world)
@@ -460,8 +497,56 @@ func (h *hijack) SendRequest(ctx context.Context, addr string, req *tikvrpc.Requ
 		}
 		e.applyRemote(ms)
 		return &tikvrpc.Response{Resp: &kvrpcpb.FlushResponse{}}, nil
+	case tikvrpc.CmdGet, tikvrpc.CmdBatchGet:
+		// the harness reads through the pipelined buffer only: a plain snapshot read at the transaction's start ts is a
+		// buffer read that lost its tier on the way.  The mock answers it from committed data only.
+		var ver uint64
+		if req.Type == tikvrpc.CmdGet {
+			ver = req.Get().Version
+		} else {
+			ver = req.BatchGet().Version
+		}
+		e.mu.Lock()
+		if e.txnTS != 0 && ver == e.txnTS {
+			e.snapReads = append(e.snapReads, req.Type.String())
+		}
+		e.mu.Unlock()
+		return h.Client.SendRequest(ctx, addr, req, timeout)
 	case tikvrpc.CmdBufferBatchGet:
 		br := req.BufferBatchGet()
+		e.mu.Lock()
+		e.bufReads++
+		armed := ""
+		if len(e.bufErrs) > 0 {
+			armed, e.bufErrs = e.bufErrs[0], e.bufErrs[1:]
+		}
+		e.mu.Unlock()
+		switch armed {
+		case "notleader":
+			atomic.AddInt64(&bufNotLeader, 1)
+			meta, leader := e.cluster.GetRegion(req.Context.GetRegionId())
+			nl := &errorpb.NotLeader{RegionId: req.Context.GetRegionId()}
+			if meta != nil {
+				for _, p := range meta.Peers {
+					if p.Id == leader {
+						nl.Leader = p
+					}
+				}
+			}
+			return &tikvrpc.Response{Resp: &kvrpcpb.BufferBatchGetResponse{RegionError: &errorpb.Error{Message: "scripted", NotLeader: nl}}}, nil
+		case "busy":
+			atomic.AddInt64(&bufBusy, 1)
+			return &tikvrpc.Response{Resp: &kvrpcpb.BufferBatchGetResponse{RegionError: &errorpb.Error{Message: "scripted", ServerIsBusy: &errorpb.ServerIsBusy{Reason: "scripted"}}}}, nil
+		}
+		if re := h.regionErrorFor(ctx, addr, req, br.Keys, br.Version, timeout); re != nil {
+			if re.GetEpochNotMatch() != nil {
+				atomic.AddInt64(&bufEpoch, 1)
+			} else {
+				atomic.AddInt64(&bufOtherRegionErr, 1)
+			}
+			return &tikvrpc.Response{Resp: &kvrpcpb.BufferBatchGetResponse{RegionError: re}}, nil
+		}
+		atomic.AddInt64(&bufOK, 1)
 		resp := &kvrpcpb.BufferBatchGetResponse{}
 		e.mu.Lock()
 		for _, k := range br.Keys {
@@ -477,6 +562,11 @@ func (h *hijack) SendRequest(ctx context.Context, addr string, req *tikvrpc.Requ
 		return &tikvrpc.Response{Resp: resp}, nil
 	case tikvrpc.CmdCommit:
 		e.mu.Lock()
+		if e.txnTS == 0 || req.Commit().StartVersion != e.txnTS {
+			// not the pipelined transaction (the committed data is being loaded): the mock commits it
+			e.mu.Unlock()
+			return h.Client.SendRequest(ctx, addr, req, timeout)
+		}
 		defer e.mu.Unlock()
 		sc := e.commitScript
 		if sc == "" {
@@ -1149,6 +1239,9 @@ func (e *env) chkFlush() string {
 
 var cur *env
 
+// how the BufferBatchGet requests were answered (evidence: every retry path of batchGetSingleRegion is taken)
+var bufOK, bufEpoch, bufOtherRegionErr, bufNotLeader, bufBusy int64
+
 func exec(op string) (string, string) {
 	w := strings.Fields(op)
 	if len(w) == 0 {
@@ -1177,6 +1270,7 @@ func exec1(w []string) string {
 	if w[0] == "reset" || w[0] == "reset-default" {
 		var mk, ms, fs = -1, -1, -1
 		var splits [][]byte
+		var committed []kvPair
 		mode := ""
 		if w[0] == "reset" {
 			if len(w) < 5 {
@@ -1187,7 +1281,25 @@ func exec1(w []string) string {
 			mk, err1 = strconv.Atoi(w[2])
 			ms, err2 = strconv.Atoi(w[3])
 			fs, err3 = strconv.Atoi(w[4])
-			sp, ok := keysOf(w[5:])
+			var spTok []string
+			for _, t := range w[5:] {
+				if strings.HasPrefix(t, "c:") {
+					// committed data: c:<key>=<value>
+					kv := strings.SplitN(t[2:], "=", 2)
+					if len(kv) != 2 {
+						return "bad-op"
+					}
+					k, ok1 := vx.UnHex(kv[0])
+					v, ok2 := vx.UnHex(kv[1])
+					if !ok1 || !ok2 || len(v) == 0 {
+						return "bad-op"
+					}
+					committed = append(committed, kvPair{k, v})
+					continue
+				}
+				spTok = append(spTok, t)
+			}
+			sp, ok := keysOf(spTok)
 			if err1 != nil || err2 != nil || err3 != nil || !ok {
 				return "bad-op"
 			}
@@ -1205,7 +1317,7 @@ func exec1(w []string) string {
 			// let the goroutine of the previous case end
 			cur.releaseFlush(completion{ok: true})
 		}
-		cur = newEnv(mode, mk, ms, fs, splits)
+		cur = newEnv(mode, mk, ms, fs, splits, committed)
 		return "ok"
 	}
 	e := cur
@@ -1215,7 +1327,7 @@ func exec1(w []string) string {
 	if e.dead {
 		return "panic deadlock"
 	}
-	if e.over && w[0] != "chk-covered" && w[0] != "chk-flush" && w[0] != "chk-range" && w[0] != "chk-answer" {
+	if e.over && w[0] != "chk-covered" && w[0] != "chk-flush" && w[0] != "chk-range" && w[0] != "chk-answer" && w[0] != "chk-tier" {
 		return "bad-op"
 	}
 	switch w[0] {
@@ -1417,6 +1529,46 @@ func exec1(w []string) string {
 		return e.chkCovered()
 	case "chk-range":
 		return e.chkRange()
+	case "split":
+		// split the region that holds the key at the key, in the mock cluster only: the client's region cache goes stale
+		if len(w) != 2 {
+			return "bad-op"
+		}
+		k, ok := vx.UnHex(w[1])
+		if !ok || len(k) == 0 {
+			return "bad-op"
+		}
+		if e.mode != "txn" {
+			return "ok"
+		}
+		meta, leader, _, _ := e.cluster.GetRegionByKey(mocktikv.NewMvccKey(k))
+		if meta == nil || leader == nil {
+			return "bad-op"
+		}
+		if bytes.Equal(meta.StartKey, mocktikv.NewMvccKey(k)) {
+			return "ok" // already a region border
+		}
+		ids := e.cluster.AllocIDs(1 + len(meta.Peers))
+		e.cluster.Split(meta.Id, ids[0], k, ids[1:], ids[1])
+		return "ok"
+	case "buferr":
+		if len(w) != 2 || (w[1] != "notleader" && w[1] != "busy") {
+			return "bad-op"
+		}
+		if e.mode == "txn" {
+			e.mu.Lock()
+			e.bufErrs = append(e.bufErrs, w[1])
+			e.mu.Unlock()
+		}
+		return "ok"
+	case "chk-tier":
+		// every read of the harness goes through the pipelined buffer: none may reach the store as a snapshot read
+		e.mu.Lock()
+		defer e.mu.Unlock()
+		if len(e.snapReads) > 0 {
+			return fmt.Sprintf("FAIL tier-dropped %s x%d", e.snapReads[0], len(e.snapReads))
+		}
+		return "ok"
 	case "chk-answer":
 		if e.mode != "txn" {
 			return "ok"
@@ -1732,6 +1884,94 @@ func (g *gen) txnRangeCase(n int) {
 	g.do("chk-covered")
 }
 
+// buffer reads after the region was split behind the client's back / with NotLeader and ServerIsBusy answers: the writes
+// are fully flushed (store tier only), committed data lies under some of them, and the read must keep the buffer tier on
+// every retry path of batchGetSingleRegion
+func (g *gen) txnTierCase(n int) {
+	g.run.Comment(fmt.Sprintf("case %d txntier", n))
+	ladder := [][]byte{{0x61}, {0x62}, {0x62, 0x00}, {0x63}, {0x64}, {0x6d}, {0x6d, 0x01}, {0x70}, {0x74}, {0x7a}, {0x7a, 0xff}, {0x7b}}
+	g.keys = ladder
+	// a few initial region borders and committed values under about half of the keys
+	var toks []string
+	border := map[int]bool{}
+	for i := range ladder {
+		if g.r.Chance(15) {
+			border[i] = true
+			toks = append(toks, vx.Hex(ladder[i]))
+		}
+	}
+	for i := range ladder {
+		if g.r.Chance(50) {
+			toks = append(toks, "c:"+vx.Hex(ladder[i])+"="+g.val())
+		}
+	}
+	g.do(strings.TrimSpace("reset txn 10000 16777216 134217728 " + strings.Join(toks, " ")))
+	rounds := 1 + g.r.Intn(2)
+	for r := 0; r < rounds; r++ {
+		// write (deletes of committed keys included) and flush completely
+		var written []int
+		for j := 0; j < 3+g.r.Intn(4); j++ {
+			i := g.r.Intn(len(ladder))
+			written = append(written, i)
+			if g.r.Chance(65) {
+				g.do("set " + vx.Hex(ladder[i]) + " " + g.val())
+			} else {
+				g.do("del " + vx.Hex(ladder[i]))
+			}
+		}
+		g.do("flush 1 0 ok 0")
+		g.do("flushdone ok 0")
+		g.do("flushwait ok 0")
+		sort.Ints(written)
+		// a border between two flushed keys that share a region
+		for t := 0; t < 1+g.r.Intn(2); t++ {
+			a := written[g.r.Intn(len(written))]
+			b := written[g.r.Intn(len(written))]
+			if a > b {
+				a, b = b, a
+			}
+			if a == b {
+				continue
+			}
+			at := a + 1 + g.r.Intn(b-a)
+			g.do("split " + vx.Hex(ladder[at]))
+		}
+		for t := 0; t < g.r.Intn(3); t++ {
+			g.do("buferr " + []string{"notleader", "busy"}[g.r.Intn(2)])
+		}
+		var ks []string
+		for _, i := range written {
+			ks = append(ks, vx.Hex(ladder[i]))
+		}
+		if g.r.Chance(30) {
+			ks = append(ks, g.key())
+		}
+		if g.r.Chance(25) {
+			g.do("chk-read " + ks[g.r.Intn(len(ks))])
+		}
+		g.do("chk-bget " + strings.Join(ks, " "))
+		g.do("chk-tier")
+		for _, k := range ks {
+			g.do("chk-read " + k)
+		}
+		if g.r.Chance(40) {
+			g.do("buferr " + []string{"notleader", "busy"}[g.r.Intn(2)])
+			g.do("chk-read " + g.key())
+		}
+		g.do("chk-tier")
+	}
+	if g.r.Bool() {
+		g.do("commit 0 ok 0 ok 0 o")
+	} else {
+		g.do("rollback ok 0")
+	}
+	g.do("chk-answer")
+	g.do("chk-flush")
+	g.do("chk-range")
+	g.do("chk-covered")
+	g.do("chk-tier")
+}
+
 // what happens to the Commit request(s) for the primary: mostly answered; sometimes executed with the answer lost, lost
 // before execution, or refused with a definite key error (later entries matter only if the request sender retries)
 func (g *gen) commitScript() string {
@@ -1754,6 +1994,13 @@ func (g *gen) compTxn(errPct int) string {
 func main() {
 	run := vx.Start()
 	defer run.Finish()
+	defer func() {
+		run.Stats["rpc:bufferbatchget:answered"] = int(atomic.LoadInt64(&bufOK))
+		run.Stats["rpc:bufferbatchget:epoch-not-match"] = int(atomic.LoadInt64(&bufEpoch))
+		run.Stats["rpc:bufferbatchget:other-region-error"] = int(atomic.LoadInt64(&bufOtherRegionErr))
+		run.Stats["rpc:bufferbatchget:not-leader"] = int(atomic.LoadInt64(&bufNotLeader))
+		run.Stats["rpc:bufferbatchget:server-is-busy"] = int(atomic.LoadInt64(&bufBusy))
+	}()
 	util.EnableFailpoints()
 	// retries after a lost Commit answer back off without sleeping (the budget is still counted)
 	if err := failpoint.Enable("tikvclient/fastBackoffBySkipSleep", "return"); err != nil {
@@ -1786,10 +2033,13 @@ func main() {
 	}
 	for i := 0; i < nTxn; i++ {
 		n++
-		if i%2 == 0 {
+		switch i % 3 {
+		case 0:
 			g.txnCase(n)
-		} else {
+		case 1:
 			g.txnRangeCase(n)
+		default:
+			g.txnTierCase(n)
 		}
 	}
 }
